@@ -51,6 +51,58 @@ fn opt(v: Option<&str>) -> Value {
     }
 }
 
+/// User-written typed qualifiers (KnownQualifierKey + From<&str>, SmallString: From<Q>) with an upper-case, a lower-case, a mixed-case
+/// and an invalid declared key.
+macro_rules! model_qualifier {
+    ($name:ident, $key:literal) => {
+        struct $name(String);
+        impl purl::qualifiers::well_known::KnownQualifierKey for $name {
+            const KEY: &'static str = $key;
+        }
+        impl<'a> From<&'a str> for $name {
+            fn from(s: &'a str) -> Self {
+                $name(s.to_owned())
+            }
+        }
+        impl From<$name> for SS {
+            fn from(v: $name) -> Self {
+                v.0.into()
+            }
+        }
+    };
+}
+model_qualifier!(MqK, "K");
+model_qualifier!(Mqk, "k");
+model_qualifier!(MqAb, "Ab");
+model_qualifier!(MqBad, "a b");
+
+fn typed_op(q: &mut Qualifiers, op: &str, val: String) -> Option<Value> {
+    macro_rules! go {
+        ($ty:ident, $o:expr) => {
+            Some(match $o {
+                "insert" => {
+                    q.insert_typed($ty(val));
+                    Value::Null
+                },
+                "get" => q.get_typed::<$ty>().map(|v| json!(hx(&v.0))).unwrap_or(Value::Null),
+                "contains" => json!(q.contains_typed::<$ty>()),
+                _ => {
+                    q.remove_typed::<$ty>();
+                    Value::Null
+                },
+            })
+        };
+    }
+    let (tag, o) = op.strip_prefix("typed")?.split_once('_')?;
+    match tag {
+        "K" => go!(MqK, o),
+        "k" => go!(Mqk, o),
+        "Ab" => go!(MqAb, o),
+        "Bad" => go!(MqBad, o),
+        _ => None,
+    }
+}
+
 pub fn run(req: &Value) -> Value {
     let mut q = match Qualifiers::try_from_iter(pairs(&req["init"])) {
         Ok(q) => q,
@@ -201,7 +253,10 @@ pub fn run(req: &Value) -> Value {
                                  "hash_eq": h(&q) == h(&o)}),
                 Err(e) => json!({"err": parse_err_name(&e)}),
             },
-            other => json!({"unsupported": other}),
+            other => match typed_op(&mut q, other, if st.as_array().map_or(0, |v| v.len()) > 1 { a(1) } else { String::new() }) {
+                Some(v) => v,
+                None => json!({"unsupported": other}),
+            },
         };
         rets.push(r);
     }
